@@ -25,7 +25,7 @@ def write_if_changed(path, text):
     open(path, "w").write(text)
 
 
-def gen_family(name, grammars, with_pest=True, extra_main="", extra_mods=None):
+def gen_family_one(name, grammars, with_pest=True, extra_main="", extra_mods=None):
     """grammars: list of dict(id, text, rules:[names], opts:{}, nopest:bool, extra: rust code appended to the module)"""
     d = os.path.join(HARNESS, "fam", name)
     os.makedirs(os.path.join(d, "src"), exist_ok=True)
@@ -101,6 +101,28 @@ fn main() {
     return "fam_" + name
 
 
+SHARD = 14
+
+
+def gen_family(name, grammars, with_pest=True, extra_main="", extra_mods=None):
+    """Shard a family into crates of <= SHARD grammars (they build in parallel). Returns [(pkg, set(gids))]."""
+    shards = []
+    fam_dir = os.path.join(HARNESS, "fam")
+    n = max(1, (len(grammars) + SHARD - 1) // SHARD)
+    for k in range(n):
+        part = grammars[k::n]
+        pkg = gen_family_one("%s_%d" % (name, k), part, with_pest, extra_main, extra_mods)
+        shards.append((pkg, {g["id"] for g in part}))
+    # remove stale shards of this family
+    import shutil
+    if os.path.isdir(fam_dir):
+        for d in os.listdir(fam_dir):
+            if d.startswith(name + "_") and d[len(name) + 1:].isdigit() and int(d[len(name) + 1:]) >= n:
+                shutil.rmtree(os.path.join(fam_dir, d), ignore_errors=True)
+    sync_workspace()
+    return shards
+
+
 def sync_workspace():
     fams = sorted(f for f in os.listdir(os.path.join(HARNESS, "fam"))
                   if os.path.exists(os.path.join(HARNESS, "fam", f, "Cargo.toml"))) if os.path.isdir(os.path.join(HARNESS, "fam")) else []
@@ -129,11 +151,13 @@ debug = 0
         shutil.copy("/repo/Cargo.lock", lock)
 
 
-def build_family(pkg, profile="dev"):
-    """Build; on compile errors located in one grammar module, report them. Returns (binary or None, errors{gid: msg})."""
-    p, binp = build_bin(pkg, profile)
+def build_family(shards, profile="dev"):
+    """Build all shards (one cargo invocation); on compile errors located in a grammar module, report them.
+    Returns (bins {pkg: path} or None, errors{gid: msg})."""
+    pkgs = [p for p, _ in shards]
+    p, bins = build_bins(pkgs, profile)
     if p.returncode == 0:
-        return binp, {}
+        return bins, {}
     errs = {}
     cur = None
     for line in (p.stdout or "").splitlines():
